@@ -157,7 +157,13 @@ func fullDump(n *SimNode, withCommits bool) (map[string]string, error) {
 				seen[lit] = true
 				d2, e2 := n.GQL(fmt.Sprintf("query { %s(filter: {%s: {_eq: %s}}) { _docID } }", c.Name(), f, lit))
 				if len(e2) > 0 {
-					return nil, fmt.Errorf("index query %s.%s=%s: %v", c.Name(), f, lit, e2)
+					// an index-backed read that fails is part of the observable state (it must fail alike on both sides);
+					// whether it may fail at all is C07's matter
+					out["ix/"+c.Name()+"/"+ix.Name+"/"+lit] = "ERR " + strings.Join(e2, ";")
+					if os.Getenv("VERIF_IXERR") != "" {
+						fmt.Fprintf(os.Stderr, "IXERR %s.%s=%s: %v\n", c.Name(), f, lit, e2)
+					}
+					continue
 				}
 				out["ix/"+c.Name()+"/"+ix.Name+"/"+lit] = canon(sortRows(rows(d2, c.Name()), "_docID"))
 			}
